@@ -105,6 +105,9 @@ func genPlan(t *rapid.T, o genOpts) *world.Plan {
 	if o.realLWallet == 0 {
 		o.realLWallet = 40
 	}
+	if v, err := strconv.Atoi(os.Getenv("VERIF_REALLW_PCT")); err == nil && v > 0 {
+		o.realLWallet = v // development aid: concentrate a batch on the real Liquid wallets
+	}
 	for i := 0; i < 2; i++ {
 		if o.realLWallet > 0 && rapid.IntRange(0, 99).Draw(t, "real-lwallet") < o.realLWallet {
 			scn.RealLiquidWallet[i] = true
@@ -132,6 +135,7 @@ func genPlan(t *rapid.T, o genOpts) *world.Plan {
 				DecoySameAmt: rapid.IntRange(0, 3).Draw(t, "decoy") == 0,
 				DecoyLast:    rapid.Bool().Draw(t, "decoylast"),
 				NestedInput:  rapid.IntRange(0, 3).Draw(t, "nestedinput") == 0,
+				RandomPos:    rapid.IntRange(0, 2).Draw(t, "randompos") == 0,
 			}
 		}
 	}
@@ -180,7 +184,7 @@ func genPlan(t *rapid.T, o genOpts) *world.Plan {
 		}
 		kinds := o.faultKinds
 		if len(kinds) == 0 {
-			kinds = []string{"err", "errafter"}
+			kinds = []string{"err", "err", "errafter", "errafter", "reject26"} // reject26: a wallet daemon refuses a broadcast with "min relay fee not met" (real wallets only)
 		}
 		n := rapid.IntRange(0, o.maxFaults).Draw(t, "nfaults")
 		for i := 0; i < n; i++ {
